@@ -73,6 +73,16 @@ def run(ctx):
                 ctx.mark_nontrivial(repr(case))
             with ctx.guard("calinski_harabasz_index", case):
                 got = impl_value(data, labels, K, biased=bool(i % 2))
+                if i % 2 == 0:
+                    # the same values held in another array dtype (counts, narrow floats) describe the same data
+                    for dt in (np.int64, np.int32, np.float32):
+                        got_dt = impl_value(data.astype(dt), labels, K, biased=bool(i % 2))
+                        ctx.count("unit-dtype")
+                        # (a float32 array is computed on in float32: agreement to single precision is all that can be asked)
+                        if abs(got_dt - got) > (1e-4 if dt is np.float32 else 1e-9) * max(1.0, abs(got)):
+                            ctx.violation("monitor", "the index of the same values stored as %s is %r, stored as float64 it is %r" % (np.dtype(dt).name, got_dt, got),
+                                          {"case": dict(case, dtype=np.dtype(dt).name)})
+                            break
                 lits.append("(%s, %s, %s)" % (c_nat(K), c_list([c_list(r, c_Z) for r in data.astype(int).tolist()]), c_list(labels, c_nat)))
                 meta.append((case, got))
         # (b) traced runs
@@ -82,6 +92,8 @@ def run(ctx):
         for j in range(ctx.budget(3, 10)):
             cen.append({"N": 2, "W": 1, "K": 2 + j % 2, "beta": 2.0, "lam": 0.11, "limit": 30, "m": 2, "biased": False, "eps": 0, "joint": False,
                         "lengths": [60], "data_seed": 300 + j, "rng_seed": 300 + j, "regimes": 2 + j % 2})
+        cen += [{"N": 2, "W": 1 + j, "K": 2, "beta": 2.0, "lam": 0.11, "limit": 30, "m": 2, "biased": False, "eps": 0, "joint": False,
+                 "lengths": [70], "data_seed": 330 + j, "rng_seed": 330 + j, "regimes": 2, "data_dtype": dt} for j, dt in enumerate(["int64", "float32"])]
         runs = runs + e2e.cached_runs(ctx, cen, "c17")
         for r in runs:
             ctx.count("run")
@@ -93,7 +105,7 @@ def run(ctx):
             stop = [e for e in r["events"] if e["event"] == "stop"]
             if not stop or min(sizes) == 0:
                 continue
-            stacked = np.vstack([dp.stack_training_data(s, cfg["W"]) for s in r["series"]])
+            stacked = np.vstack([dp.stack_training_data(np.asarray(s, dtype=np.float64), cfg["W"]) for s in r["series"]])
             means = [c["stacked_data_mean"] for c in fin["clusters"]]
             member_means = [stacked[c["members"]].mean(axis=0) for c in fin["clusters"]]
             if not all(np.allclose(a, b, rtol=1e-9, atol=1e-9) for a, b in zip(means, member_means)):
